@@ -9,6 +9,7 @@ import (
 
 	"verif/internal/cli"
 	"verif/internal/clit"
+	"verif/internal/docs"
 	"verif/internal/h"
 	"verif/internal/ref"
 )
@@ -32,7 +33,29 @@ type StreamCase struct {
 	Data     clit.Dataset `json:"data"`
 }
 
-var damages = []string{"broken-middle", "foreign-middle", "empty", "truncated-last", "broken-first"}
+var damages = []string{"broken-middle", "foreign-middle", "empty", "truncated-last", "broken-first",
+	// every tree file of the command line as a Nexus / PhyloXML document (--format applies to all of
+	// them), the file under test intact, without any tree, or cut in the middle
+	"nexus-intact", "nexus-notrees", "nexus-cut", "phyloxml-intact", "phyloxml-empty", "phyloxml-cut"}
+
+// asFormat rewrites a text of Newick trees as a Nexus or PhyloXML document (false: not possible).
+func asFormat(text, format string) (string, bool) {
+	if format == "nexus" {
+		return cli.ToNexus(text, false)
+	}
+	if strings.TrimSpace(text) == "" {
+		return "", false
+	}
+	var ms []*ref.Node
+	for _, l := range strings.Split(strings.TrimSpace(text), "\n") {
+		m, err := ref.Parse(l)
+		if err != nil {
+			return "", false
+		}
+		ms = append(ms, m)
+	}
+	return docs.PhyloXML(ms), true
+}
 
 func damage(text, kind string) string {
 	lines := strings.Split(strings.TrimRight(text, "\n"), "\n")
@@ -95,8 +118,32 @@ func checkStream(c StreamCase) error {
 	if _, ok := d.Files[c.File]; !ok {
 		return fmt.Errorf("harness: data set has no file %q", c.File)
 	}
-	d.Files[c.File] = damage(d.Files[c.File], c.Damage)
-	o := clit.Run(*tp, d, 1, c.Threads)
+	var extra []string
+	if i := strings.Index(c.Damage, "-"); i > 0 && (c.Damage[:i] == "nexus" || c.Damage[:i] == "phyloxml") {
+		format, what := c.Damage[:i], c.Damage[i+1:]
+		for _, a := range tp.Args {
+			if a == "--format" || a == "--input-format" {
+				return nil // the template chooses its own input format
+			}
+		}
+		for _, f := range treeFiles(*tp) {
+			if doc, ok := asFormat(d.Files[f], format); ok {
+				d.Files[f] = doc
+			}
+		}
+		switch what {
+		case "notrees":
+			d.Files[c.File] = "#NEXUS\nBEGIN TAXA;\n DIMENSIONS NTAX=2;\n TAXLABELS a b;\nEND;\n"
+		case "empty":
+			d.Files[c.File] = "<phyloxml></phyloxml>\n"
+		case "cut":
+			d.Files[c.File] = d.Files[c.File][:len(d.Files[c.File])*3/5]
+		}
+		extra = []string{"--format", format}
+	} else {
+		d.Files[c.File] = damage(d.Files[c.File], c.Damage)
+	}
+	o := clit.Run(*tp, d, 1, c.Threads, extra...)
 	if o.TimedOut {
 		return fmt.Errorf("%s (gotree %s) does not end when %s is damaged (%s), %d thread(s)", c.Template, strings.Join(tp.Args, " "), c.File, c.Damage, c.Threads)
 	}
@@ -107,7 +154,7 @@ func checkStream(c StreamCase) error {
 }
 
 func TestC02CliStreams(t *testing.T) {
-	r := h.NewRecorder(t, "C02", "cli-streams", "every command template x every Newick tree file it reads (stdin, -i, -c, -b ...) x damage {record that is not a tree first / in the middle, tree on other taxa in the middle, empty file, last tree without ';'} x {1 thread, 4 threads where the command has -t}, on a data set generated from VERIF_SEED: the process must end by itself within 60 s and print no Go panic trace; the exit status is not judged; every case is non-trivial")
+	r := h.NewRecorder(t, "C02", "cli-streams", "every command template x every Newick tree file it reads (stdin, -i, -c, -b ...) x damage {record that is not a tree first / in the middle, tree on other taxa in the middle, empty file, last tree without ';'; all tree files as Nexus or PhyloXML documents with --format, the file under test intact / without any tree / cut in the middle} x {1 thread, 4 threads where the command has -t}, on a data set generated from VERIF_SEED: the process must end by itself within 60 s and print no Go panic trace; the exit status is not judged; every case is non-trivial")
 	var rc StreamCase
 	if replaying, mine := r.ReplayCase(&rc); replaying {
 		if mine {
